@@ -29,17 +29,23 @@ def mc(run):
         'PROPERTY LastWriteWins', 'PROPERTY QueriesArePure', 'INVARIANT OverriddenIsConstant',
         'INVARIANT UntouchedKeepMeaning', 'INVARIANT GridIsBox', 'INVARIANT SizesGrow'],
         workers=12, timeout=1500, coverage=True)
-    run.vacuity(r, ['SetCells', 'Get', 'GetSheet'])
+    run.vacuity(r, ['SetCells', 'Get', 'GetSheet', 'RejectedSet'])
     ci = ['CONSTANTS WCoords = {"S1A1","S1B2","S1A2"} Values = {2,4} MaxBatch = 2'] if run.quick else consts
     r = run.tlc('MC_ExecutorImpl', ['SPECIFICATION Spec'] + ci + ['CONSTANT Variant = "fixed"', 'PROPERTY Refines',
-                                                                  'INVARIANT ArgsCoherent'],
+                                                                  'INVARIANT ArgsCoherent', 'INVARIANT MarksAreOverrides'],
                 workers=12, timeout=1500, tag='MC_ExecutorImpl_fixed', coverage=True)
-    run.vacuity(r, ['SetCells', 'Query'])
+    run.vacuity(r, ['SetCells', 'Query', 'RejectedSet'])
     rp = run.tlc('MC_ExecutorImpl', ['SPECIFICATION Spec', 'CONSTANTS WCoords = {"S1A1","S1B2","S1A2"} Values = {2,4} MaxBatch = 2',
                                      'CONSTANT Variant = "pinned"', 'PROPERTY Refines'],
                  workers=4, timeout=600, tag='MC_ExecutorImpl_pinned', expect_ok=False)
     if rp.ok:
         raise core.MachineryError('pinned-variant executor model unexpectedly refines the ideal executor')
+    re_ = run.tlc('MC_ExecutorImpl', ['SPECIFICATION Spec', 'CONSTANTS WCoords = {"S1A1","S1F4"} Values = {2} MaxBatch = 2',
+                                      'CONSTANT Variant = "eager_sizes"', 'PROPERTY Refines'],
+                  workers=4, timeout=600, tag='MC_ExecutorImpl_eager_sizes', expect_ok=False)
+    if re_.ok:
+        raise core.MachineryError('the executor model whose rejected calls leave size marks behind unexpectedly refines the ideal executor')
+    run.notes.append(f'eager-sizes census: {re_.violated} violated after {len(re_.error_trace)} states (expected)')
     run.notes.append(f'pinned-variant census: {rp.violated} violated after {len(rp.error_trace)} states (expected)')
 
 
@@ -58,6 +64,8 @@ def replay_history(w, h, rng, from_file=False):
             ex.set_cells([])
         if rng.random() < 0.2:
             ex.set_cells([xc.mk_cell(pos[c], v, rng.randint(0, 3)) for c, v in step['batch']])
+        if rng.random() < 0.25 and not xc.rejected_set(ex, pos, rng):          # Executor!RejectedSet: changes nothing
+            return False, f'round {rnd + 1}: a set_cells call naming a cell that cannot exist was accepted', obs
         if lazy and rnd < len(h) - 1:
             continue
         snap = step['snap']
@@ -227,6 +235,8 @@ def record_trace(w, rng, n):
             batch = [[rng.choice(wnames), rng.choice([2, 4, 6, 12])] for _ in range(rng.randint(1, 3))]
             ex.set_cells([xc.mk_cell(pos[c], v, rng.randint(0, 3)) for c, v in batch])
             tr.append({'ev': 'set', 'batch': batch})
+        elif x < 0.36:
+            tr.append({'ev': 'rejected', 'raised': xc.rejected_set(ex, pos, rng)})
         elif x < 0.7:
             c = rng.choice(names)
             tr.append({'ev': 'get', 'c': c, 'res': xc.q_get(ex, pos[c], rng.randint(0, 3))})
